@@ -264,13 +264,13 @@ def suggestion_and_delta(fval: float, sval: str, key: int, val: str, ns1: int, t
   return finish(ok, args)
 
 
-def study_config_roundtrip(algo: int, noise: int, stopping: bool, lo: float, hi: float, key: int, val: str) -> bool:
+def study_config_roundtrip(algo: int, noise: int, stopping: bool, lo: float, hi: float, key: int, val: str, endpoint: bool) -> bool:
   """
-  pre: 0 <= algo <= 2 and 0 <= noise <= 2 and 0 <= key <= 3 and len(val) <= 1
+  pre: 1 <= algo <= 2 and 0 <= noise <= 1 and 0 <= key <= 3 and len(val) <= 1
   post: _
   """
-  args = (algo, noise, stopping, lo, hi, key, val)
-  algo, noise = conc(algo, 0, 2), conc(noise, 0, 2)
+  args = (algo, noise, stopping, lo, hi, key, val, endpoint)
+  algo, noise = conc(algo, 1, 2), conc(noise, 0, 1)
   key = _KEYS[conc(key, 0, 3)]
   if not (_finite(lo) and _finite(hi) and lo <= hi):
     return True
@@ -282,6 +282,8 @@ def study_config_roundtrip(algo: int, noise: int, stopping: bool, lo: float, hi:
   sc.metric_information.append(vz.MetricInformation('m', goal=vz.ObjectiveMetricGoal.MINIMIZE))
   sc.metadata[key] = val
   sc.metadata.ns('n')[key] = val
+  if endpoint:
+    sc.pythia_endpoint = 'localhost:1234'
   p1 = sc.to_proto()
   back = svz.StudyConfig.from_proto(p1)
   p2 = back.to_proto()
@@ -290,6 +292,8 @@ def study_config_roundtrip(algo: int, noise: int, stopping: bool, lo: float, hi:
   ok = ok and (back.automated_stopping_config is None) == (sc.automated_stopping_config is None)
   ok = ok and back.search_space == sc.search_space and list(back.metric_information) == list(sc.metric_information)
   ok = ok and back.metadata[key] == val and back.metadata.ns('n')[key] == val and p2 == p1
+  ok = ok and back.pythia_endpoint == sc.pythia_endpoint
+  ok = ok and svz.StudyConfig.from_proto(p2).to_proto() == p1          # a third conversion is still identical
   # a config obtained from the wire, edited (entry removed, entry replaced), converted again
   del back.metadata[key]
   back.metadata.ns('n')[key] = 'other'
